@@ -119,6 +119,17 @@ def ev_bad_construct_mode(p, keep):
         return 'ValueError'
 
 
+def ev_env_decimal(prec):
+    def ev(p, keep):
+        import decimal
+        if prec is None:
+            decimal.setcontext(decimal.Context())
+        else:
+            decimal.getcontext().prec = prec
+        return 'set'
+    return ev
+
+
 def ev_marshal_refused(p, keep):
     out = []
     for build in (lambda: p.commands.Connection.Tune(10, 2**32, 5),
@@ -278,6 +289,14 @@ EVENTS = [
     ('toggle (True)', ev_toggle(True)),
     ('toggle (False)', ev_toggle(False)),
     ('encode flag-sensitive table', ev_flag_encode),
+    # the caller's thread-local decimal context is environment, not an
+    # argument: results must not depend on it
+    ('env: decimal context prec=6', ev_env_decimal(6)),
+    ('env: decimal context default', ev_env_decimal(None)),
+    ('encode Decimal 21474836.47', lambda p, keep: p.encode.field_table(
+        {'d': [A.D('21474836.47'), A.D('-1234567.89')]}).hex()),
+    ('decode Decimal 21474836.47', lambda p, keep: c(p.decode.field_array(
+        bytes.fromhex('0000000c44027fffffff4402f8a432eb')))),
     # encodes that are refused part-way through
     ('marshal refused mid-way', ev_marshal_refused),
     ('marshal invalid after setattr', ev_marshal_invalid),
